@@ -195,3 +195,18 @@ def default_ans(base, k):
     if base == "E3":
         return "E" if k % 3 == 0 else "F"
     raise ValueError(base)
+
+
+def half_for(x0kind, geo, D):
+    """A half-space x0+x1 <= c that keeps the given start (or any start drawn in the plausible box) feasible
+    while cutting off part of the box."""
+    lb, ub, plb, pub, logc = geometry(geo, D)
+    x0 = start_point(x0kind, geo, D)
+    if x0 is None:
+        s = float(pub[0] + (pub[1] if D > 1 else 0.0))
+    else:
+        s = float(x0[0, 0] + (x0[0, 1] if D > 1 else 0.0))
+    rng = ub - lb
+    rng = np.where(np.isfinite(rng), rng, 0.0)
+    slack = 0.7 + 2.5e-3 * float(rng[0] + (rng[1] if D > 1 else 0.0))  # a start on a bound is moved 0.1% inside
+    return ["half", s + slack]
